@@ -3,6 +3,7 @@ configuration a driver request needs from a live YaqlFactory, and tokenises with
 into the same canonical form the model prints.  Used by C16 (and reusable by C01/C02/C03).
 
 canonical token : {'k': KIND, ['s': [cp..]], 'v': None | {'t': [cp..]} | {'i': '123'} | {'f': float}, 'p': lexpos}
+(the model sends {'f': 'ddd.ddd', 'b': '<IEEE bits, decimal>'}; norm_model turns the bits into the float)
 canonical result: {'ok': [token..]} | {'err': {'v': [cp..], 'pos': n}} | {'foreign': 'ExcType: msg'}
 """
 import re
@@ -187,14 +188,20 @@ def same_float(x, y):
     return struct.pack('>d', x) == struct.pack('>d', y)
 
 
+def float_of_bits(b):
+    import struct
+    return struct.unpack('>d', struct.pack('>Q', int(b)))[0]
+
+
 def norm_model(res):
-    """model result -> comparable with real_lex: floats evaluated from their decimal text"""
+    """model result -> comparable with real_lex: a float token carries the IEEE bits the MODEL computed
+    (`Lexer.literalFloat` = `FloatRound.roundRat digits (10^k)`), compared bit for bit with the real value"""
     if 'ok' in res:
         toks = []
         for t in res['ok']:
             t = dict(t)
             if isinstance(t.get('v'), dict) and 'f' in t['v']:
-                t['v'] = dict(f=model_float(t['v']['f']))
+                t['v'] = dict(f=float_of_bits(t['v']['b']))
             toks.append(t)
         return dict(ok=toks)
     if 'tok' in res:
